@@ -102,7 +102,8 @@ def gen_cases(tier, rng):
 def tid_checks(tier, rng, report):
     """append failures (clause C09:tid_noninterference) to report['extra_failing']; add counts to the report"""
     t0 = time.time()
-    stats = {"tid_evaluations": 0, "tid_failures": 0, "tid_foreign_datagrams_delivered": 0, "tid_foreign_not_delivered": 0}
+    stats = {"tid_cases_within_theorem_hypotheses": 0, "tid_cases_outside_theorem_hypotheses": 0,
+             "tid_evaluations": 0, "tid_failures": 0, "tid_foreign_datagrams_delivered": 0, "tid_foreign_not_delivered": 0}
     base_cache = {}
     out = []
     for base, c in gen_cases(tier, rng):
@@ -113,6 +114,11 @@ def tid_checks(tier, rng, report):
         without = base_cache[key]
         with_f = T.run_impl(c)
         stats["tid_evaluations"] += 1
+        # hypotheses of C09_tid_noninterference: non-decreasing time stamps, positive time-out (always), and the
+        # fake socket's zero handling time (proc = 0)
+        ts = [e[0] for e in c["events"]]
+        within = all(a <= b for a, b in zip(ts, ts[1:])) and c.get("proc", 0) == 0
+        stats["tid_cases_within_theorem_hypotheses" if within else "tid_cases_outside_theorem_hypotheses"] += 1
         n_foreign = sum(1 for e in c["events"] if e[1] != 0)
         delivered = sum(1 for e in with_f if e[0] == 2 and e[2] != 0)
         stats["tid_foreign_datagrams_delivered"] += delivered
